@@ -189,7 +189,8 @@ Definition expected (n : Z) (v : value) : option cell :=
   | VFloat (FInf neg) => Some (OInf neg)
   | VStr s => Some (OStr s)
   end.
-(* through _write_tsv_simple floats are written with repr and come back exactly *)
+(* through _write_tsv_simple floats are written with repr and come back exactly (an observed float is
+   an OFlt token; what the model's reader returns for it is characterised by Cell_Is below) *)
 Definition expected_raw (v : value) : cell :=
   match v with
   | VNone => OStr ""
@@ -209,7 +210,7 @@ Definition nonnumeric (s : string) : bool :=
    newlines) *)
 Definition char_csv_ok (c : ascii) : bool := negb ((code c =? 0) || (code c =? 10) || (code c =? 13)).
 Definition ctext_ok (t : ctext) : bool :=
-  match t with CT s => forallb char_csv_ok (s2l s) | CRepr _ => true end.
+  match t with CT s => forallb char_csv_ok (s2l s) end.
 Definition str_csv_ok (s : string) : bool := forallb char_csv_ok (s2l s).
 Definition value_ok (v : value) : bool :=
   match v with
@@ -238,7 +239,9 @@ Definition Rows_Spec (first : option string) (excl : list string) (n : Z) (rows 
 (* ---- comparison of an observed cell with an expected one ---- *)
 Definition Qpow2 (z : Z) : Q := Qpower (2 # 1)%Q z.
 Definition Qpow10 (z : Z) : Q := Qpower (10 # 1)%Q z.
-(* y = (-1)^neg' m 2^e is within half a unit in the last place of mant * 10^e10 (normal range) *)
+(* y = (-1)^neg' m 2^e is within half a unit in the last place of mant * 10^e10 (normal range); y is
+   an infinity of that sign when the decimal is at least 2^1024 - 2^970 (the largest double plus half a
+   unit in its last place), where float() overflows to inf *)
 Definition near_dec (neg : bool) (mant e10 : Z) (y : ftok) : bool :=
   match y with
   | FFin neg' m e =>
@@ -247,7 +250,8 @@ Definition near_dec (neg : bool) (mant e10 : Z) (y : ftok) : bool :=
       else (0 <? m) &&
            let u := Z.log2 m + e - 52 in
            Qle_bool (Qabs (inject_Z m * Qpow2 e - inject_Z mant * Qpow10 e10) * (2 # 1))%Q (Qpow2 u)
-  | _ => false
+  | FInf neg' => Bool.eqb neg neg' && Qle_bool (Qpow2 1024 - Qpow2 970)%Q (inject_Z mant * Qpow10 e10)%Q
+  | FNaN => false
   end.
 
 (* expected (from the model / the specification) against observed (floats observed as OFlt tokens) *)
@@ -295,21 +299,43 @@ Fixpoint zmem (x : Z) (l : list Z) : bool :=
   match l with [] => false | y :: r => (x =? y) || zmem x r end.
 Fixpoint znodup_b (l : list Z) : bool :=
   match l with [] => true | x :: r => negb (zmem x r) && znodup_b r end.
-Definition Simple_Spec (field : string) (data : list (Z * value)) (out : string * list (Z * cell)) : Prop :=
+(* binary64 *)
+Definition f64 : ffmt := mkffmt 53 (-1074) 1024.
+Definition f64_ok (f : ftok) : bool := ftok_ok f64 f.
+(* the cell the reader returns for a written value: integers and strings unchanged; for a float x a
+   float()-typed cell (never an int or a string) whose double is x *)
+Definition Cell_Is (F : floatlayer) (v : value) (c : cell) : Prop :=
+  match v with
+  | VFloat f => cell_double F c = Some f
+  | _ => c = expected_raw v
+  end.
+Definition Simple_Spec (F : floatlayer) (field : string) (data : list (Z * value)) (out : string * list (Z * cell)) : Prop :=
   fst out = field /\ NoDup (map fst (snd out)) /\
-  forall id, lookup Z.eqb id (snd out) = option_map expected_raw (lookup Z.eqb id data).
+  forall id, match lookup Z.eqb id data with
+             | Some v => exists c, lookup Z.eqb id (snd out) = Some c /\ Cell_Is F v c
+             | None => lookup Z.eqb id (snd out) = None
+             end.
 Definition simple_spec_b (field : string) (data : list (Z * value)) (of : string) (out : list (Z * cell)) : bool :=
   String.eqb of field && znodup_b (map fst out) &&
   forallb (fun id => ocell_match (option_map expected_raw (lookup Z.eqb id data)) (lookup Z.eqb id out))
           (map fst data ++ map fst out).
 Definition simple_value_ok (v : value) : bool :=
-  match v with VNone => false | _ => value_ok v end.
+  match v with VNone => false | VFloat f => f64_ok f | _ => value_ok v end.
 
 (* clause 7: parameter file *)
 Definition py_key_ok (k : string) : bool :=
   is_ident k && negb (smem k keywords) && String.eqb (lower_str k) k.
+(* the floats of a parameter value are binary64 values (canonical tokens) *)
+Fixpoint pfloat_ok (v : pyval) : bool :=
+  match v with
+  | PFloat f => f64_ok f
+  | PList l => forallb pfloat_ok l
+  | PDict l => forallb (fun kv => pfloat_ok (snd kv)) l
+  | _ => true
+  end.
 Definition py_ok (d : list (string * pyval)) : bool :=
-  nodup_b (map fst d) && forallb (fun kv => py_key_ok (fst kv) && plain (snd kv) && wfb (snd kv)) d.
+  nodup_b (map fst d) &&
+  forallb (fun kv => py_key_ok (fst kv) && plain (snd kv) && wfb (snd kv) && pfloat_ok (snd kv)) d.
 Definition py_spec_b (d out : list (string * pyval)) : bool :=
   list_eqb (fun a b => String.eqb (fst a) (fst b) && pyval_eqb (snd a) (snd b)) out d.
 
@@ -324,6 +350,17 @@ Record Codec_OK (C : codec) : Prop := {
 Record Text_OK {T : Type} (L : textlayer T) : Prop := {
   text_rt : forall t, jsorted t = true -> jparse L (jprint L t) = Some t;
   text_ne : forall t, tempty L (jprint L t) = false }.
+
+(* repr(float) / float(): the text repr gives for a binary64 value x is a float literal (of the grammar
+   py_float transcribes) that float() converts to x again; int() rejects it; it is made of the
+   characters of a float: digits . e + - and the letters of inf / nan *)
+Definition float_char (c : ascii) : bool :=
+  is_digit c || Ascii.eqb c ch_dot || Ascii.eqb c ch_minus || Ascii.eqb c ch_plus ||
+  existsb (Ascii.eqb c) (s2l "einfa").
+Record Float_OK (F : floatlayer) : Prop := {
+  fl_rt : forall f, f64_ok f = true -> exists c, py_float (frepr F f) = Some c /\ cell_double F c = Some f;
+  fl_not_int : forall f, f64_ok f = true -> py_int (frepr F f) = None;
+  fl_chars : forall f, f64_ok f = true -> forallb float_char (frepr F f) = true }.
 
 Record Csv_OK {T : Type} (V : csvlayer T) : Prop := {
   csv_rt : forall dl lines, forallb (forallb ctext_ok) lines = true ->
